@@ -176,6 +176,10 @@ def cost_constants(ctx):
             for x in S.walk(e):
                 if isinstance(x, tuple) and x and x[0] == "fn" and x[1] in facts.bodies:
                     cost_fn_ids.add(x[1])
+                # the per-character cost may also be a closure literal (`.map(|&class| class_cost(class))`)
+                if isinstance(x, tuple) and x and x[0] == "agg" and x[1] == "closure" and x[2] in facts.bodies and \
+                        facts.bodies[x[2]].local_ty(0) == "f64":
+                    cost_fn_ids.add(x[2])
     for fid in sorted(cost_fn_ids):
         fb = facts.bodies[fid]
         if fb.local_ty(0) != "f64":
